@@ -113,7 +113,7 @@ def lowerAscii (c : Char) : Char :=
   if 65 ≤ c.toNat ∧ c.toNat ≤ 90 then Char.ofNat (c.toNat + 32) else c
 
 /-- rowparser.py `str_to_bool` (no non-ASCII character lower-cases into a letter of `false`) -/
-def strToBool (s : Str) : Bool := !(s.map lowerAscii == "false".toList)
+def strToBool (s : Str) : Bool := !(s.map lowerAscii == ['f', 'a', 'l', 's', 'e'])
 
 def isDigit (c : Char) : Bool := 48 ≤ c.toNat && c.toNat ≤ 57
 
@@ -137,14 +137,10 @@ def isUniDigit (c : Char) : Bool := uniDigitZeros.any (fun z => z ≤ c.toNat &&
 /-- `int(s)` on a stripped string: optional sign, ASCII digits.  Digit strings with `_` or
 non-ASCII decimal digits are not modelled (`unmodelled`); everything else is a `ValueError`. -/
 def parseIntCore (s : Str) : IntParse :=
-  let body := match s with
-    | '+' :: r => r
-    | '-' :: r => r
-    | _ => s
+  let neg := s.head? == some '-'
+  let body := if s.head? == some '+' || neg then s.tail else s
   if body ≠ [] ∧ body.all isDigit then
-    (match s with
-     | '-' :: _ => .ok (-(valOf body : Int))
-     | _ => .ok (valOf body : Int))
+    (if neg then .ok (-(valOf body : Int)) else .ok (valOf body : Int))
   else if body ≠ [] ∧ body.all (fun c => isDigit c || c = '_' || isUniDigit c) then .unmodelled
   else .invalid
 
@@ -165,6 +161,13 @@ def intToStr (i : Int) : Str :=
 
 /-! ### model_inference.py -/
 
+def sStr : Str := ['s', 't', 'r']
+def sInt : Str := ['i', 'n', 't']
+def sFloat : Str := ['f', 'l', 'o', 'a', 't']
+def sBool : Str := ['b', 'o', 'o', 'l']
+def sList : Str := ['l', 'i', 's', 't']
+def sListOpen : Str := ['L', 'i', 's', 't', '[']
+
 def stripPrefix : Str → Str → Option Str
   | [], s => some s
   | _ :: _, [] => none
@@ -174,12 +177,12 @@ def stripPrefix : Str → Str → Option Str
 def parseTyFuel : Nat → Str → Option Ty
   | 0, _ => none
   | n + 1, s =>
-    if s = "str".toList then some .str
-    else if s = "int".toList then some .int
-    else if s = "float".toList then some .float
-    else if s = "bool".toList then some .bool
-    else if s = "list".toList then some .anyList
-    else match stripPrefix "List[".toList s with
+    if s = sStr then some .str
+    else if s = sInt then some .int
+    else if s = sFloat then some .float
+    else if s = sBool then some .bool
+    else if s = sList then some .anyList
+    else match stripPrefix sListOpen s with
       | some r =>
         if r.getLast? = some ']' then (parseTyFuel n r.dropLast).map Ty.list else none
       | none => none
@@ -365,29 +368,33 @@ def infer (hs : List Str) : Except Err Ty :=
 /-! ### the inverse used by the generators: schema → annotated headers -/
 
 def renderTy : Ty → Str
-  | .str => "str".toList
-  | .int => "int".toList
-  | .float => "float".toList
-  | .bool => "bool".toList
-  | .anyList => "list".toList
-  | .list t => "List[".toList ++ renderTy t ++ "]".toList
-  | .model _ => "?".toList
+  | .str => sStr
+  | .int => sInt
+  | .float => sFloat
+  | .bool => sBool
+  | .anyList => sList
+  | .list t => sListOpen ++ renderTy t ++ [']']
+  | .model _ => ['?']
 
 /-- `:type` (nothing for `str`) -/
 def annOf : Ty → Str
   | .str => []
   | t => sepType :: renderTy t
 
-/-- `=default` (nothing for the type's own zero value, nothing for lists) -/
-def dflOf : Val → Str
-  | .str [] => []
-  | .str s => sepDefault :: s
-  | .int 0 => []
-  | .int i => sepDefault :: intToStr i
-  | .float 0 => []
-  | .float i => sepDefault :: intToStr i
-  | .bool true => sepDefault :: "True".toList
-  | _ => []
+/-- the text after `=` (none for the type's own zero value, none for lists) -/
+def dflX : Val → Option Str
+  | .str s => if s = [] then none else some s
+  | .int i => if i = 0 then none else some (intToStr i)
+  | .float i => if i = 0 then none else some (intToStr i)
+  | .bool b => if b then some ['T', 'r', 'u', 'e'] else none
+  | _ => none
+
+def dflStr : Option Str → Str
+  | none => []
+  | some D => sepDefault :: D
+
+/-- `=default` -/
+def dflOf (d : Val) : Str := dflStr (dflX d)
 
 /-- a field written as ONE annotated header (basic types, `list`, `List[T]` with default `[]`) -/
 def isSimple : Ty → Val → Bool
